@@ -336,6 +336,11 @@ func c11Run(k c11Case, prefix []int) (*sched.Scheduler, []string, string, string
 	connMonitor = nil
 	final := ""
 	if len(s.Deadlocked) == 0 {
+		if n := vsync.HeldModel(); n > 0 && use.viol == "" {
+			// every operation returned, yet a lock of the code under test is still held: the next caller would block forever
+			use.viol = fmt.Sprintf("LOCK-LEFT-HELD: all operations completed but %d lock(s) are still held", n)
+			return s, res, "", use.viol
+		}
 		final = w.final()
 	}
 	return s, res, final, use.viol
@@ -360,6 +365,10 @@ func c11Check(c *ev.Ctx, k c11Case, seq map[string]bool, s *sched.Scheduler, res
 	}
 	if len(s.Deadlocked) > 0 {
 		report("C11:deadlock:"+pair, fmt.Sprintf("threads %v never complete", s.Deadlocked))
+		return
+	}
+	if strings.HasPrefix(connViol, "LOCK-LEFT-HELD") {
+		report("C11:lock-left-held:"+pair, connViol+": a later operation can never complete")
 		return
 	}
 	if connViol != "" {
@@ -391,6 +400,13 @@ func sortedCopy(a []string) []string {
 func c11Explore(c *ev.Ctx, k c11Case, bound, dev int) {
 	k.Bound, k.Dev = bound, dev
 	seq := c11Sequential(k)
+	for o := range seq {
+		if strings.Contains(o, vsync.LeakMessage) {
+			// already in a plain sequential order one operation leaves a lock held and the next one can never complete
+			c.Violation("C11:lock-left-held:"+strings.Join(sortedCopy(k.Ops), "+"), "in a sequential order of the operations a lock is left held by one call and the next call blocks forever: "+o[:min(len(o), 300)], k)
+			return
+		}
+	}
 	nOut := map[string]bool{}
 	execs, complete := sched.ExploreDev(bound, dev, func(prefix []int) *sched.Scheduler {
 		s, res, final, cv := c11Run(k, prefix)
@@ -527,6 +543,9 @@ func racePass(c *ev.Ctx) {
 	cmd.Stdout = &stderr
 	err := cmd.Run()
 	out := stderr.String()
+	if i := strings.Index(out, "RACE-PASS-STUCK"); i >= 0 {
+		c.Violation("C11:operations-never-complete:free-running-pass", "in the free-running pass operations of concurrent clients never completed: "+strings.SplitN(out[i:], "\n", 2)[0], map[string]any{"race_pass": true})
+	}
 	reports := strings.Split(out, "WARNING: DATA RACE")
 	n := 0
 	seen := map[string]bool{}
@@ -587,7 +606,15 @@ func racePassMain(args []string) int {
 					}()
 				}
 				close(start)
-				wg.Wait()
+				done := make(chan struct{})
+				go func() { wg.Wait(); close(done) }()
+				select {
+				case <-done:
+				case <-time.After(300 * time.Second):
+					// a group finishes within a second or two even under heavy load; 300 s of silence is a wedged shim
+					fmt.Printf("RACE-PASS-STUCK: %d free-running goroutines (no-upstream=%v, round %d) did not complete their operations within 300 s\n", n, noUp, rep)
+					return 3
+				}
 				w.close()
 			}
 		}
